@@ -743,7 +743,60 @@ def _s_replace(ex, st, s, args, kwargs, node, spec):
     return StrV(fa(s.arr, s.n, a.arr, a.n, b.arr, b.n), n)
 
 
+STRIP_FN = {}
+
+
+def _strip_index(cx, s, chars, left):
+    """Index where s.lstrip(chars) starts (left) / where s.rstrip(chars) ends (not left), with defining axioms per use."""
+    key_name = ("L" if left else "R") + "STRIP[" + "".join(sorted(chars)) + "]"
+    fn = STRIP_FN.setdefault(key_name, z3.Function(key_name, AII, I, I))
+    cache = cx.__dict__.setdefault("_strip", set())
+    key = (s.arr.get_id(), s.n.get_id(), key_name)
+    j = fn(s.arr, s.n)
+    if key not in cache:
+        cache.add(key)
+        t = z3.Int("t!st")
+
+        def inset(c):
+            return z3.Or(*[c == ord(ch) for ch in chars])
+        if left:
+            cx.axioms += [0 <= j, j <= s.n, z3.Implies(j < s.n, z3.Not(inset(s.arr[j]))),
+                          z3.ForAll([t], z3.Implies(z3.And(0 <= t, t < j), inset(s.arr[t])))]
+        else:
+            cx.axioms += [0 <= j, j <= s.n, z3.Implies(j > 0, z3.Not(inset(s.arr[j - 1]))),
+                          z3.ForAll([t], z3.Implies(z3.And(j <= t, t < s.n), inset(s.arr[t])))]
+    return j
+
+
+WHITESPACE = " \t\n\r\x0b\x0c"
+
+
+def _strip_chars(args):
+    if not args or args[0] is None:
+        return WHITESPACE
+    if isinstance(args[0], PyConst) and isinstance(args[0].v, str) and args[0].v:
+        return args[0].v
+    raise Unsupported("str.strip with a non-constant character set")
+
+
+def _s_lstrip(ex, st, s, args, kwargs, node, spec):
+    j = _strip_index(ex.cx, s, _strip_chars(args), True)
+    return named_slice(ex.cx, s, j, s.n)
+
+
+def _s_rstrip(ex, st, s, args, kwargs, node, spec):
+    return StrV(s.arr, _strip_index(ex.cx, s, _strip_chars(args), False))
+
+
+def _s_strip(ex, st, s, args, kwargs, node, spec):
+    chars = _strip_chars(args)
+    r = StrV(s.arr, _strip_index(ex.cx, s, chars, False))
+    j = _strip_index(ex.cx, r, chars, True)
+    return named_slice(ex.cx, r, j, r.n)
+
+
 STR_METHODS = {
+    "lstrip": _s_lstrip, "rstrip": _s_rstrip, "strip": _s_strip,
     "partition": _s_partition, "find": _s_find, "replace": _s_replace,
     "upper": _map_chars(UPPER), "lower": _map_chars(LOWER), "startswith": _s_startswith, "endswith": _s_endswith,
     "count": _s_count, "encode": _s_encode, "decode": _s_encode, "format": _s_format,
